@@ -935,6 +935,57 @@ mod chain {
 			self.listed_now = listed.iter().filter_map(|k| self.ids.iter().position(|id| k.starts_with(&format!("route:{}:", id)))).collect();
 			real.iter().filter_map(|k| self.ids.iter().position(|id| k.starts_with(&format!("route:{}:", id)))).collect()
 		}
+		/// one `fub` case right after the commitment transaction `ctxid` was mined: what the live `fail_unbroadcast_htlcs!` check
+		/// queued (HTLCUpdate entries without an output index, read through the add-only hook `verif_unbroadcast_view`) against
+		/// Model/Unbroadcast.lean on the lists the monitor holds; `in_tx[k]` = payment k has a (non-dust) output in the mined transaction
+		fn fub(&mut self, ctxid: bitcoin::Txid, in_tx: &[bool]) {
+			let mon = match self.net.nodes[0].chain_monitor.chain_monitor.get_monitor(self.cid) { Ok(m) => m, Err(_) => return };
+			let view = mon.verif_unbroadcast_view();
+			drop(mon);
+			let mut hashes: BTreeMap<String, u64> = BTreeMap::new();
+			let (mut cur, mut prev, mut hct, mut hpt) = ("-".to_string(), "-".to_string(), "0".to_string(), "-".to_string());
+			let mut lists: BTreeMap<&str, String> = BTreeMap::new();
+			let (mut ful, mut queued_keys, mut cand_keys): (Vec<String>, Vec<String>, Vec<String>) = (vec![], vec![], vec![]);
+			let t = intern(&mut self.txids, &format!("{}", ctxid));
+			for l in view.iter() {
+				let w: Vec<&str> = l.split(' ').filter(|x| !x.is_empty()).collect();
+				let mut htlcs = |sc: &mut BTreeMap<String, u64>, ws: &[&str], cand: Option<&mut Vec<String>>| -> String {
+					let mut keys = vec![];
+					let v: Vec<String> = ws.iter().map(|h| { let f: Vec<&str> = h.split('@').collect(); if f[0] != "-" { keys.push(f[0].to_string()); }
+						format!("{}@{}@{}@{}", if f[0] == "-" { "x".to_string() } else { intern(sc, f[0]) }, if f[1] == "-" { "x" } else { f[1] }, intern(&mut hashes, f[2]), f[3]) }).collect();
+					if let Some(c) = cand { c.extend(keys); }
+					if v.is_empty() { "-".into() } else { v.join(",") }
+				};
+				match w[0] {
+					"curcp" => cur = intern(&mut self.txids, w[1]),
+					"prevcp" => prev = intern(&mut self.txids, w[1]),
+					"cpc" => { let x = htlcs(&mut self.srcs, &w[1..], Some(&mut cand_keys)); lists.insert("cpc", x); },
+					"cpp" => { let x = htlcs(&mut self.srcs, &w[1..], Some(&mut cand_keys)); lists.insert("cpp", x); },
+					"hcur" => { hct = intern(&mut self.txids, w[1]); let x = htlcs(&mut self.srcs, &w[2..], None); lists.insert("hcur", x); },
+					"hprev" => { hpt = intern(&mut self.txids, w[1]); let x = if w.len() > 2 { htlcs(&mut self.srcs, &w[2..], None) } else { "-".into() }; lists.insert("hprev", x); },
+					"ful" => { for k in &w[1..] { ful.push(intern(&mut self.srcs, k)); } },
+					"hu" => { if w[3] == format!("{}", ctxid) { queued_keys.push(w[1].to_string()); } },
+					_ => {},
+				}
+			}
+			let j = |v: &Vec<String>| if v.is_empty() { "-".to_string() } else { v.join(",") };
+			let g = |k: &str| lists.get(k).cloned().unwrap_or("-".into());
+			let op = format!("fub {} {} {} {} {} {} {} {} {} {}", t, cur, prev, g("cpc"), g("cpp"), hct, g("hcur"), hpt, g("hprev"), j(&ful));
+			let mut nums: Vec<u64> = queued_keys.iter().map(|k| intern(&mut self.srcs, k).parse().unwrap()).collect();
+			nums.sort(); nums.dedup();
+			let ans = format!("queued {}", if nums.is_empty() { "-".to_string() } else { nums.iter().map(|n| n.to_string()).collect::<Vec<_>>().join(",") });
+			let arm = if t == cur { "counterparty-current" } else if t == prev { "counterparty-previous" } else if t == hct { "holder-current" } else if t == hpt { "holder-previous" } else { "other" };
+			self.log.push(format!("[confirmed] {} => {}", op, ans));
+			self.rec.case(&op, &ans, &format!("fub:{}:{}", arm, nums.len().min(3)), true);
+			for k in 0..self.ids.len().min(in_tx.len()) {
+				let pre = format!("route:{}:", self.ids[k]);
+				let queued = queued_keys.iter().any(|q| q.starts_with(&pre));
+				let cand = cand_keys.iter().any(|q| q.starts_with(&pre));
+				let fulfilled = view.iter().any(|l| l.starts_with("ful ") && l.contains(&pre));
+				if in_tx[k] && queued { self.rec.oracle_fail(format!("fail_unbroadcast_htlcs queued payment {}'s HTLC to FAIL at the confirmation of commitment transaction {} although it has a non-dust output in that transaction :: {} :: {}", k + 1, ctxid, self.tag, self.log.join(" | "))); }
+				if !in_tx[k] && cand && !fulfilled && !queued { self.rec.oracle_fail(format!("payment {}'s HTLC has no output in the confirmed commitment transaction {} but fail_unbroadcast_htlcs queued no failure for it (without a restart the payment stays pending forever) :: {} :: {}", k + 1, ctxid, self.tag, self.log.join(" | "))); }
+			}
+		}
 		/// a restart right after the sender's events were handled, as one `rout` case per payment without a terminal event so far:
 		/// what `ChannelManager::read` makes of the payment (PaymentSent / PaymentFailed / still pending), against restartOutcome
 		fn restart_rout(&mut self, extra_open_part: bool) -> Result<(), String> {
@@ -1073,6 +1124,7 @@ mod chain {
 		sc.log.push(format!("close by node {} with {} outputs; HTLC outputs present: {:?}", closer, closing_tx.output.len(), in_tx));
 		if in_tx[0] == w.dust { return Err(format!("payment 1 dust={} but output present={}", w.dust, in_tx[0])); }
 		sc.blocks(|n| { mine_transaction(n, &closing_tx); });
+		sc.fub(ctxid, &in_tx);
 		sc.blocks(|n| { connect_blocks(n, ANTI_REORG_DELAY - 2); });
 		// ---- ANTI_REORG_DELAY - 1 confirmations: nothing may be reported, no terminal event
 		let mut timed_out = vec![false; n_ids];
@@ -1228,6 +1280,7 @@ mod chain {
 			if sent == 0 && !live1 && sc.restarted == 0 { sc.rec.oracle_fail(format!("the part on the live channel vanished without a fulfil [{}] :: {} :: {}", stage, sc.tag, sc.log.join(" | "))); }
 		};
 		sc.blocks(|n| { mine_transaction(n, &closing_tx); });
+		sc.fub(ctxid, &[in_tx]);
 		sc.blocks(|n| { connect_blocks(n, ANTI_REORG_DELAY - 2); });
 		check(sc, "mpp,depth=ARD-1", false);
 		if w.restarts & 1 != 0 { sc.restart_rout(true)?; check(sc, "mpp,depth=ARD-1,restarted", false); }
